@@ -948,7 +948,11 @@ int main(int argc, char **argv) {
     }
 
     f.close();
-    vf::note("tier_bounds", vf::jstr(thorough ? "rank1: 20 descriptors x extents 1..5 x units on/off; rank2: 16 kind pairs x 6 parameter picks; rank3: 64 kind triples x 2 picks, 8 start/end pairs per axis; view pairs: all windows"
-                                              : "rank1: 20 descriptors x extents {1,2,5}; rank2: 16 kind pairs; rank3: 64 kind triples, 5 start/end pairs per axis; view pairs: windows at offset (1,1) with <= 4 cells"));
+    vf::note("tier_bounds", vf::jstr(thorough ? "rank1: 20 descriptors x extents 1..5 x units on/off; rank2: 16 kind pairs x 6 parameter picks; rank3: 64 kind triples x 2 picks, 8 start/end pairs per axis; "
+                                                "start/end of different lengths: every (Ls,Le), Ls != Le, on all of these configurations + 9 sampled descriptors with offsets -0.75/-3/7 x extents 1..5 + 8 rank-2 + 6 rank-3 configurations with such axes; "
+                                                "view requests: count 0..w+1 x offset 0..N (array extent); view pairs: all windows (requests with an offset behind the window only with non-zero counts)"
+                                              : "rank1: 20 descriptors x extents {1,2,5}; rank2: 16 kind pairs; rank3: 64 kind triples, 5 start/end pairs per axis; "
+                                                "start/end of different lengths: every (Ls,Le), Ls != Le, on all rank-1 and rank-2 configurations, every fourth rank-3 configuration, + 9 sampled descriptors with offsets -0.75/-3/7 x extents {1,2,5} + 8 rank-2 + 6 rank-3 configurations with such axes; "
+                                                "view requests: count 0..w+1 x offset 0..N (array extent); view pairs: windows at offset (1,1) with <= 4 cells (requests with an offset behind the window only with non-zero counts)"));
     return vf::finish();
 }
